@@ -64,14 +64,21 @@ def _fixtures(d):
         b = pyBigWig.open(bw, "w")
         b.addHeader([(n, len(s)) for n, s in GENOME])
         for ci, (n, s) in enumerate(GENOME):
-            vals = [float(_sig(ci, p, t)) for p in range(len(s))]
-            b.addEntries([n] * len(s), list(range(len(s))), ends=list(range(1, len(s) + 1)), values=vals)
+            pos = [p for p in range(len(s)) if not _gap(ci, p, t)]
+            b.addEntries([n] * len(pos), pos, ends=[p + 1 for p in pos], values=[float(_sig(ci, p, t)) for p in pos])
         b.close()
         bws.append(bw)
     return fa, bws
 
 
+def _gap(ci, p, t):
+    """positions of track 1 that are uncovered in the bigWig and NaN in the in-memory array (both must read as 0)"""
+    return t == 1 and (ci * 7 + p) % 11 == 3
+
+
 def _sig(ci, p, t):
+    if _gap(ci, p, t):
+        return 0
     return (1000 * (ci + 1) + p) * (1 if t == 0 else -2) + (0 if t == 0 else 5)
 
 
@@ -88,9 +95,22 @@ ACGT = "ACGT"
 
 def _dicts():
     seqs = {n: _ohe_np(s) for n, s in GENOME}
-    sigs = [{n: numpy.array([_sig(ci, p, t) for p in range(len(s))], dtype=numpy.float32) for ci, (n, s) in enumerate(GENOME)}
+    sigs = [{n: numpy.array([numpy.nan if _gap(ci, p, t) else _sig(ci, p, t) for p in range(len(s))], dtype=numpy.float32) for ci, (n, s) in enumerate(GENOME)}
             for t in range(2)]
     return seqs, sigs
+
+
+def _reindex(df, style):
+    """the same rows under a non-default index: reversed labels / all-equal labels / string labels (row ORDER is what counts)"""
+    df = df.copy()
+    n = len(df)
+    if style % 4 == 1:
+        df.index = list(range(n - 1, -1, -1))
+    elif style % 4 == 2:
+        df.index = [0] * n
+    elif style % 4 == 3:
+        df.index = ["r%d" % ((7 * i + 3) % (n + 5)) for i in range(n)]
+    return df
 
 
 def _expect(ci, start, end, iw, ow, jit, with_signal=True):
@@ -131,7 +151,7 @@ def run_loci(rec, sh, tier, seed):
                         for start in range(len(s)):
                             for end in range(start + 1, len(s) + 1):
                                 cls, eseq, esig = _expect(ci, start, end, iw, ow, jit, with_sig)
-                                loci = pandas.DataFrame({"chrom": [name], "start": [start], "end": [end]})
+                                loci = pandas.DataFrame({"chrom": [name], "start": [start], "end": [end]}, index=[(start + end) % 3])
                                 if sh["input"] == "file":
                                     a = dict(sequences=fa, signals=bws if with_sig else None)
                                 else:
@@ -231,6 +251,8 @@ def run_multi(rec, tier, seed):
                                 dfs = [pandas.DataFrame(dict(chrom=[r[1] for r in S], start=[r[2] for r in S], end=[r[3] for r in S]),
                                                         columns=["chrom", "start", "end"]).astype(dict(chrom=str, start="int64", end="int64"))
                                        for S in sets]
+                                if form == "df":
+                                    dfs = [_reindex(df, len(rec.samples) + k_ + (n_loci or 0) + len(S_)) for k_, (df, S_) in enumerate(zip(dfs, sets))]
                                 if form == "bedfile":
                                     paths = []
                                     for k, df in enumerate(dfs):
